@@ -25,22 +25,23 @@ Proof. intros SP. apply legacy_args_equiv_run_all; [exact SP | apply reader_prem
 
 Theorem legacy_args_equiv_parse_fuel_sp s cx ps : star_premises s cx ps ->
   forall a p, forallb argchar_ok a = true ->
-    new_args_loop s cx (parse_fuel s) ps a p [] <> OutOfFuel ->
-    run s false cx (parse_fuel s) (TArgs ps (map std_spec a) [] p) <> OutOfFuel ->
-    agree (run s false cx (parse_fuel s) (TArgs ps (map std_spec a) [] p))
+    new_args_loop s cx (parse_fuel s cx) ps a p [] <> OutOfFuel ->
+    run s false cx (parse_fuel s cx) (TArgs ps (map std_spec a) [] p) <> OutOfFuel ->
+    agree (run s false cx (parse_fuel s cx) (TArgs ps (map std_spec a) [] p))
           (legacy_parse_args s false cx ps a false None p).
 Proof. intros SP. apply legacy_args_equiv_run_parse_fuel; [exact SP | apply reader_premises_hold]. Qed.
 
 (** the pylatexenc-3 arguments parser does not run out of the model's fuel
-    [parse_fuel s] on an argument string of up to 37 characters (contexts whose
-    specifications have at most 10 argument slots): the [OutOfFuel] escape of
-    [agree] is not taken there *)
+    [parse_fuel s cx] on an argument string of up to [37 + max_args cx]
+    characters, in EVERY context (the legacy argument string is not part of the
+    context, so its length is not accounted for in the context-dependent fuel;
+    [fuel_base cx - 3 = 37 + max_args cx] slots are paid by the base): the
+    [OutOfFuel] escape of [agree] is not taken there *)
 Theorem legacy_args_run_terminates s cx a p :
-  ctx_wf cx = true -> p <= length s -> length a <= 37 ->
-  run s false cx (parse_fuel s) (TArgs (walker_state cx) (map std_spec a) [] p) <> OutOfFuel.
+  p <= length s -> length a <= 37 + max_args cx ->
+  run s false cx (parse_fuel s cx) (TArgs (walker_state cx) (map std_spec a) [] p) <> OutOfFuel.
 Proof.
-  intros WF Hp Ha. apply Nat.leb_le in WF.
-  apply (run_fuel_enough s false cx 8); [lia | lia | |].
+  intros Hp Ha. apply parse_fuel_enough.
   - split; [exact Hp | split; [apply good_walker_state | exact I]].
-  - unfold need, W, parse_fuel. cbn [task_pos cst]. rewrite map_length. lia.
+  - cbn [cst]. rewrite map_length. unfold fuel_base. lia.
 Qed.
